@@ -170,3 +170,16 @@ def pbase (succ : T → List (PRel T D)) : T → List (PRel T D) :=
   fun n => (succ n).filter (fun r => !r.inferential)
 
 end V
+
+namespace V
+/-! ### `visions.functional` -/
+variable {T D S L : Type}
+
+/-- `compare_detect_inference_frame` (as repaired): iterate the detected types in column order,
+keep the keys that also have an inferred type. -/
+def compareDetectInference [DecidableEq L] (det inf : List (L × T)) : List (L × T × T) :=
+  det.filterMap (fun kd => (inf.find? (fun e => e.1 == kd.1)).map (fun e => (kd.1, kd.2, e.2)))
+
+/-- `identity_transform` -/
+def identityXform : D → S → Except Err (D × S) := fun x s => .ok (x, s)
+end V
